@@ -132,6 +132,34 @@ theorem DeclsDone.transport {N : Num D} {nm : Nat → String} {lo hi : Nat} {ds 
   have := h _ hd
   cases init <;> simpa [DeclOK, hag x hr] using this
 
+/-! ## token retrieval -/
+
+/-- every chain of the expression, compiled from supply position `n` on, finds its token bound to
+its own container type and bank in the run's token table (vacuous unless the backend retrieves by
+token) -/
+def TokEE (B : Backend) (nm : Nat → String) (C : Ctx D) : EE → Nat → Prop
+  | .count c, n => TokChain B nm C c (n + 1)
+  | .sum c, n => TokChain B nm C c (n + 1)
+  | .bin _ a b, n => TokEE B nm C a n ∧ TokEE B nm C b (compEE B nm a n).next
+  | .cmp _ a b, n => TokEE B nm C a n ∧ TokEE B nm C b (compEE B nm a n).next
+  | .neg a, n => TokEE B nm C a n
+  | .not a, n => TokEE B nm C a n
+  | .int _, _ => True
+  | .dbl _ _, _ => True
+  | .bool _, _ => True
+
+theorem tokEE_of_notToken {B : Backend} (h : B.how ≠ "token") (nm : Nat → String) (C : Ctx D) :
+    ∀ (e : EE) (n : Nat), TokEE B nm C e n
+  | .count c, n => tokChain_of_notToken h nm C c _
+  | .sum c, n => tokChain_of_notToken h nm C c _
+  | .bin _ a b, n => ⟨tokEE_of_notToken h nm C a n, tokEE_of_notToken h nm C b _⟩
+  | .cmp _ a b, n => ⟨tokEE_of_notToken h nm C a n, tokEE_of_notToken h nm C b _⟩
+  | .neg a, n => tokEE_of_notToken h nm C a n
+  | .not a, n => tokEE_of_notToken h nm C a n
+  | .int _, _ => trivial
+  | .dbl _ _, _ => trivial
+  | .bool _, _ => trivial
+
 /-! ## Count and Sum -/
 
 theorem foldG_count : ∀ (ws : List (Val D)) (b : Int),
@@ -246,11 +274,11 @@ theorem not_touch_sub {nm : Nat → String} {lo hi lo' hi' : Nat} {y : String}
   · exact h (Or.inr hr)
 
 /-- **Count** over a chain. -/
-theorem count_correct (C : Ctx D) (QC : QCtx D) (hN : QC.N = C.N) (hev : QC.ev = C.ev)
-    (B : Backend) (hB : BackendOK B) (nm : Nat → String)
+theorem count_correct_tok (C : Ctx D) (QC : QCtx D) (hN : QC.N = C.N) (hev : QC.ev = C.ev)
+    (B : Backend) (hB : BackendBase B) (nm : Nat → String)
     (hinj : ∀ i j, nm i = nm j → i = j) (hres : ∀ j, nm j ≠ "result")
     (hcollT : ∀ name, B.collType name = QC.collType name)
-    (c : Chain) (n : Nat) (s : St D) (v : Val D)
+    (c : Chain) (n : Nat) (htok : TokChain B nm C c (n + 1)) (s : St D) (v : Val D)
     (hdone : DeclsDone C.N (compEE B nm (.count c) n).decls s.env)
     (hwt : wtSteps none c.steps = true) (hmt : ChainTyped QC c)
     (hden : denote QC [("e", evtVal)] (eeQ "e" (.count c)) = .ok v) :
@@ -282,7 +310,7 @@ theorem count_correct (C : Ctx D) (QC : QCtx D) (hN : QC.N = C.N) (hev : QC.ev =
         rintro (⟨j, h1, _, h3⟩ | h)
         · have := hinj _ _ h3; omega
         · exact hres n h
-      obtain ⟨s', hex, hP'⟩ := compChain_correct (β := Int) C QC hN B hB nm hinj hres c (n + 1) K cty l ws
+      obtain ⟨s', hex, hP'⟩ := compChain_correct_tok (β := Int) C QC hN B hB nm hinj hres c (n + 1) htok K cty l ws
         (by rw [hcollT]; exact hct) (by rw [← hev]; exact hfind) hwt (hmt cty l hfind) Pinv
         (fun a _ => .ok (a + 1)) (fun _ => True) (fun _ _ => trivial)
         (by
@@ -307,11 +335,11 @@ theorem count_correct (C : Ctx D) (QC : QCtx D) (hN : QC.N = C.N) (hev : QC.ev =
     | _ => simp at hden
 
 /-- **Sum** over a chain that ends in numbers. -/
-theorem sum_correct (C : Ctx D) (QC : QCtx D) (hN : QC.N = C.N) (hev : QC.ev = C.ev)
-    (B : Backend) (hB : BackendOK B) (nm : Nat → String)
+theorem sum_correct_tok (C : Ctx D) (QC : QCtx D) (hN : QC.N = C.N) (hev : QC.ev = C.ev)
+    (B : Backend) (hB : BackendBase B) (nm : Nat → String)
     (hinj : ∀ i j, nm i = nm j → i = j) (hres : ∀ j, nm j ≠ "result")
     (hcollT : ∀ name, B.collType name = QC.collType name)
-    (c : Chain) (n : Nat) (s : St D) (v : Val D)
+    (c : Chain) (n : Nat) (htok : TokChain B nm C c (n + 1)) (s : St D) (v : Val D)
     (hdone : DeclsDone C.N (compEE B nm (.sum c) n).decls s.env)
     (hwt : wtSteps none c.steps = true) (t : Ty) (hct' : chainTy none c.steps = some t) (htn : t.isNum = true)
     (hmt : ChainTyped QC c) (hsne : SumNonEmpty QC c)
@@ -350,7 +378,7 @@ theorem sum_correct (C : Ctx D) (QC : QCtx D) (hN : QC.N = C.N) (hev : QC.ev = C
         intro x hx'
         have := (stepConds_vars B.elemPtr c.steps (.var (nm (n + 1 + 1))) none).2 x hx'
         simpa [vars] using this
-      obtain ⟨s', hex, hP'⟩ := compChain_correct (β := Val D) C QC hN B hB nm hinj hres c (n + 1) K cty l ws
+      obtain ⟨s', hex, hP'⟩ := compChain_correct_tok (β := Val D) C QC hN B hB nm hinj hres c (n + 1) htok K cty l ws
         (by rw [hcollT]; exact hct) (by rw [← hev]; exact hfind) hwt (hmt cty l hfind) Pinv
         (fun a w => arith C.N "+" a w) (fun _ => True) (fun _ _ => trivial)
         (by
@@ -376,6 +404,35 @@ theorem sum_correct (C : Ctx D) (QC : QCtx D) (hN : QC.N = C.N) (hev : QC.ev = C
         · right; cases t <;> simp [Ty.isFloating, Ty.isNum, Ty.join, HasTy] at hf htn ⊢
       · simpa [compEE] using hP'.2.2
     | _ => simp at hden
+
+/-- **Count** over a chain (retrieval by bank name). -/
+theorem count_correct (C : Ctx D) (QC : QCtx D) (hN : QC.N = C.N) (hev : QC.ev = C.ev)
+    (B : Backend) (hB : BackendOK B) (nm : Nat → String)
+    (hinj : ∀ i j, nm i = nm j → i = j) (hres : ∀ j, nm j ≠ "result")
+    (hcollT : ∀ name, B.collType name = QC.collType name)
+    (c : Chain) (n : Nat) (s : St D) (v : Val D)
+    (hdone : DeclsDone C.N (compEE B nm (.count c) n).decls s.env)
+    (hwt : wtSteps none c.steps = true) (hmt : ChainTyped QC c)
+    (hden : denote QC [("e", evtVal)] (eeQ "e" (.count c)) = .ok v) :
+    ∃ s', execs C (compEE B nm (.count c) n).stmts s = .ok s' ∧ s'.rows = s.rows ∧
+      evalE C.N s'.env (compEE B nm (.count c) n).val = .ok v ∧ HasTy v .int ∧
+      (∀ y, ¬ Touch nm n (compEE B nm (.count c) n).next y → s'.env y = s.env y) :=
+  count_correct_tok C QC hN hev B hB.base nm hinj hres hcollT c n (tokChain_of_notToken hB.notToken nm C c _) s v hdone hwt hmt hden
+
+/-- **Sum** over a chain that ends in numbers (retrieval by bank name). -/
+theorem sum_correct (C : Ctx D) (QC : QCtx D) (hN : QC.N = C.N) (hev : QC.ev = C.ev)
+    (B : Backend) (hB : BackendOK B) (nm : Nat → String)
+    (hinj : ∀ i j, nm i = nm j → i = j) (hres : ∀ j, nm j ≠ "result")
+    (hcollT : ∀ name, B.collType name = QC.collType name)
+    (c : Chain) (n : Nat) (s : St D) (v : Val D)
+    (hdone : DeclsDone C.N (compEE B nm (.sum c) n).decls s.env)
+    (hwt : wtSteps none c.steps = true) (t : Ty) (hct' : chainTy none c.steps = some t) (htn : t.isNum = true)
+    (hmt : ChainTyped QC c) (hsne : SumNonEmpty QC c)
+    (hden : denote QC [("e", evtVal)] (eeQ "e" (.sum c)) = .ok v) :
+    ∃ s', execs C (compEE B nm (.sum c) n).stmts s = .ok s' ∧ s'.rows = s.rows ∧
+      evalE C.N s'.env (compEE B nm (.sum c) n).val = .ok v ∧ HasTy v (Ty.join .int t) ∧
+      (∀ y, ¬ Touch nm n (compEE B nm (.sum c) n).next y → s'.env y = s.env y) :=
+  sum_correct_tok C QC hN hev B hB.base nm hinj hres hcollT c n (tokChain_of_notToken hB.notToken nm C c _) s v hdone hwt t hct' htn hmt hsne hden
 
 end FaxVerif.Gen
 
@@ -433,30 +490,30 @@ theorem compEE_seq (C : Ctx D) (B : Backend) (nm : Nat → String)
     rw [hf2 y (not_touch_sub hy h1 (Nat.le_refl _)), hf1 y (not_touch_sub hy (Nat.le_refl _) h2)]
 
 /-- **event-level scalar expressions** -/
-theorem compEE_correct (C : Ctx D) (QC : QCtx D) (hN : QC.N = C.N) (hev : QC.ev = C.ev)
-    (B : Backend) (hB : BackendOK B) (nm : Nat → String)
+theorem compEE_correct_tok (C : Ctx D) (QC : QCtx D) (hN : QC.N = C.N) (hev : QC.ev = C.ev)
+    (B : Backend) (hB : BackendBase B) (nm : Nat → String)
     (hinj : ∀ i j, nm i = nm j → i = j) (hres : ∀ j, nm j ≠ "result")
     (hcollT : ∀ name, B.collType name = QC.collType name) :
-    ∀ (e : EE) (n : Nat) (s : St D) (v : Val D),
+    ∀ (e : EE) (n : Nat) (s : St D) (v : Val D), TokEE B nm C e n →
       DeclsDone C.N (compEE B nm e n).decls s.env →
       wtEE e = true → (∀ c ∈ chainsEE e, ChainTyped QC c) → (∀ c ∈ sumChainsEE e, SumNonEmpty QC c) →
       denote QC [("e", evtVal)] (eeQ "e" e) = .ok v →
       ∃ s', execs C (compEE B nm e n).stmts s = .ok s' ∧ s'.rows = s.rows ∧
         evalE C.N s'.env (compEE B nm e n).val = .ok v ∧ HasTy v (tyEE e) ∧
         (∀ y, ¬ Touch nm n (compEE B nm e n).next y → s'.env y = s.env y)
-  | .int k, n, s, v, _, _, _, _, hden => by
+  | .int k, n, s, v, _, _, _, _, _, hden => by
     simp only [eeQ, denote, Except.ok.injEq] at hden; subst hden
     exact ⟨s, by simp [compEE, execs], rfl, by simp [compEE, evalE], by simp [tyEE, HasTy], fun _ _ => rfl⟩
-  | .dbl m e, n, s, v, _, _, _, _, hden => by
+  | .dbl m e, n, s, v, _, _, _, _, _, hden => by
     simp only [eeQ, denote, Except.ok.injEq] at hden; subst hden
     exact ⟨s, by simp [compEE, execs], rfl, by simp [compEE, evalE, hN], by simp [tyEE, HasTy], fun _ _ => rfl⟩
-  | .bool b, n, s, v, _, _, _, _, hden => by
+  | .bool b, n, s, v, _, _, _, _, _, hden => by
     simp only [eeQ, denote, Except.ok.injEq] at hden; subst hden
     exact ⟨s, by simp [compEE, execs], rfl, by simp [compEE, evalE], by simp [tyEE, HasTy], fun _ _ => rfl⟩
-  | .count c, n, s, v, hdone, hwt, hct, _, hden => by
+  | .count c, n, s, v, htk, hdone, hwt, hct, _, hden => by
     simp only [wtEE] at hwt
-    exact count_correct C QC hN hev B hB nm hinj hres hcollT c n s v hdone hwt (hct c (by simp [chainsEE])) hden
-  | .sum c, n, s, v, hdone, hwt, hct, hsn, hden => by
+    exact count_correct_tok C QC hN hev B hB nm hinj hres hcollT c n htk s v hdone hwt (hct c (by simp [chainsEE])) hden
+  | .sum c, n, s, v, htk, hdone, hwt, hct, hsn, hden => by
     simp only [wtEE, Bool.and_eq_true, chainNumTy] at hwt
     cases hty : chainTy none c.steps with
     | none => rw [hty] at hwt; simp at hwt
@@ -466,10 +523,10 @@ theorem compEE_correct (C : Ctx D) (QC : QCtx D) (hN : QC.N = C.N) (hev : QC.ev 
         by_cases h : t.isNum = true
         · exact h
         · simp [h] at hwt
-      have := sum_correct C QC hN hev B hB nm hinj hres hcollT c n s v hdone hwt.1 t hty htn
+      have := sum_correct_tok C QC hN hev B hB nm hinj hres hcollT c n htk s v hdone hwt.1 t hty htn
         (hct c (by simp [chainsEE])) (hsn c (by simp [sumChainsEE])) hden
       simpa [tyEE, hty] using this
-  | .bin op a b, n, s, v, hdone, hwt, hct, hsn, hden => by
+  | .bin op a b, n, s, v, htk, hdone, hwt, hct, hsn, hden => by
     simp only [wtEE, Bool.and_eq_true] at hwt
     obtain ⟨⟨⟨hwa, hwb⟩, hna⟩, hnb⟩ := hwt
     simp only [eeQ, denote] at hden
@@ -490,19 +547,19 @@ theorem compEE_correct (C : Ctx D) (QC : QCtx D) (hN : QC.N = C.N) (hev : QC.ev 
         have hdone' : DeclsDone C.N ((compEE B nm a n).decls ++ (compEE B nm b (compEE B nm a n).next).decls) s.env := by
           simpa [compEE] using hdone
         have hta : HasTy va (tyEE a) := by
-          obtain ⟨_, _, _, _, h, _⟩ := compEE_correct C QC hN hev B hB nm hinj hres hcollT a n s va
+          obtain ⟨_, _, _, _, h, _⟩ := compEE_correct_tok C QC hN hev B hB nm hinj hres hcollT a n s va htk.1
             (fun d hd => hdone' d (by simp [hd])) hwa hcta hsna hda
           exact h
         have htb : HasTy vb (tyEE b) := by
-          obtain ⟨_, _, _, _, h, _⟩ := compEE_correct C QC hN hev B hB nm hinj hres hcollT b (compEE B nm a n).next s vb
+          obtain ⟨_, _, _, _, h, _⟩ := compEE_correct_tok C QC hN hev B hB nm hinj hres hcollT b (compEE B nm a n).next s vb htk.2
             (fun d hd => hdone' d (by simp [hd])) hwb hctb hsnb hdb
           exact h
         obtain ⟨s2, hex, hrows, hva, hvb, hfr⟩ := compEE_seq C B nm hinj hres a b n s va vb hdone'
           (fun hd => by
-            obtain ⟨s1, h1, h2, h3, _, h5⟩ := compEE_correct C QC hN hev B hB nm hinj hres hcollT a n s va hd hwa hcta hsna hda
+            obtain ⟨s1, h1, h2, h3, _, h5⟩ := compEE_correct_tok C QC hN hev B hB nm hinj hres hcollT a n s va htk.1 hd hwa hcta hsna hda
             exact ⟨s1, h1, h2, h3, h5⟩)
           (fun s1 hd => by
-            obtain ⟨s2, h1, h2, h3, _, h5⟩ := compEE_correct C QC hN hev B hB nm hinj hres hcollT b _ s1 vb hd hwb hctb hsnb hdb
+            obtain ⟨s2, h1, h2, h3, _, h5⟩ := compEE_correct_tok C QC hN hev B hB nm hinj hres hcollT b _ s1 vb htk.2 hd hwb hctb hsnb hdb
             exact ⟨s2, h1, h2, h3, h5⟩)
         refine ⟨s2, by simpa [compEE] using hex, hrows, ?_, ?_, by simpa [compEE] using hfr⟩
         · -- the value
@@ -537,7 +594,7 @@ theorem compEE_correct (C : Ctx D) (QC : QCtx D) (hN : QC.N = C.N) (hev : QC.ev 
             have := arith_num C.N op hdiv va vb _ _ hta htb hna hnb
             rw [hN] at hden
             exact this.2 v (by rw [this.1]; exact hden)
-  | .cmp op a b, n, s, v, hdone, hwt, hct, hsn, hden => by
+  | .cmp op a b, n, s, v, htk, hdone, hwt, hct, hsn, hden => by
     simp only [wtEE, Bool.and_eq_true] at hwt
     obtain ⟨⟨⟨hwa, hwb⟩, hna⟩, hnb⟩ := hwt
     simp only [eeQ, denote] at hden
@@ -557,19 +614,19 @@ theorem compEE_correct (C : Ctx D) (QC : QCtx D) (hN : QC.N = C.N) (hev : QC.ev 
         have hdone' : DeclsDone C.N ((compEE B nm a n).decls ++ (compEE B nm b (compEE B nm a n).next).decls) s.env := by
           simpa [compEE] using hdone
         have hta : HasTy va (tyEE a) := by
-          obtain ⟨_, _, _, _, h, _⟩ := compEE_correct C QC hN hev B hB nm hinj hres hcollT a n s va
+          obtain ⟨_, _, _, _, h, _⟩ := compEE_correct_tok C QC hN hev B hB nm hinj hres hcollT a n s va htk.1
             (fun d hd => hdone' d (by simp [hd])) hwa hcta hsna hda
           exact h
         have htb : HasTy vb (tyEE b) := by
-          obtain ⟨_, _, _, _, h, _⟩ := compEE_correct C QC hN hev B hB nm hinj hres hcollT b (compEE B nm a n).next s vb
+          obtain ⟨_, _, _, _, h, _⟩ := compEE_correct_tok C QC hN hev B hB nm hinj hres hcollT b (compEE B nm a n).next s vb htk.2
             (fun d hd => hdone' d (by simp [hd])) hwb hctb hsnb hdb
           exact h
         obtain ⟨s2, hex, hrows, hva, hvb, hfr⟩ := compEE_seq C B nm hinj hres a b n s va vb hdone'
           (fun hd => by
-            obtain ⟨s1, h1, h2, h3, _, h5⟩ := compEE_correct C QC hN hev B hB nm hinj hres hcollT a n s va hd hwa hcta hsna hda
+            obtain ⟨s1, h1, h2, h3, _, h5⟩ := compEE_correct_tok C QC hN hev B hB nm hinj hres hcollT a n s va htk.1 hd hwa hcta hsna hda
             exact ⟨s1, h1, h2, h3, h5⟩)
           (fun s1 hd => by
-            obtain ⟨s2, h1, h2, h3, _, h5⟩ := compEE_correct C QC hN hev B hB nm hinj hres hcollT b _ s1 vb hd hwb hctb hsnb hdb
+            obtain ⟨s2, h1, h2, h3, _, h5⟩ := compEE_correct_tok C QC hN hev B hB nm hinj hres hcollT b _ s1 vb htk.2 hd hwb hctb hsnb hdb
             exact ⟨s2, h1, h2, h3, h5⟩)
         rw [hN] at hden
         refine ⟨s2, by simpa [compEE] using hex, hrows, ?_, ?_, by simpa [compEE] using hfr⟩
@@ -577,7 +634,7 @@ theorem compEE_correct (C : Ctx D) (QC : QCtx D) (hN : QC.N = C.N) (hev : QC.ev 
           rw [evalE_bin_arith _ _ _ (cop_not_logic op).1 (cop_not_logic op).2]
           simp only [hva, hvb]; exact hden
         · simpa [tyEE] using cmp_num C.N op va vb _ _ hta htb hna hnb v hden
-  | .neg a, n, s, v, hdone, hwt, hct, hsn, hden => by
+  | .neg a, n, s, v, htk, hdone, hwt, hct, hsn, hden => by
     simp only [wtEE, Bool.and_eq_true] at hwt
     simp only [eeQ, denote] at hden
     cases hda : denote QC [("e", evtVal)] (eeQ "e" a) with
@@ -585,7 +642,7 @@ theorem compEE_correct (C : Ctx D) (QC : QCtx D) (hN : QC.N = C.N) (hev : QC.ev 
     | ok va =>
       rw [hda, hN] at hden
       simp only [] at hden
-      obtain ⟨s1, h1, h2, h3, h4, h5⟩ := compEE_correct C QC hN hev B hB nm hinj hres hcollT a n s va
+      obtain ⟨s1, h1, h2, h3, h4, h5⟩ := compEE_correct_tok C QC hN hev B hB nm hinj hres hcollT a n s va htk
         (by simpa [compEE] using hdone) hwt.1 (fun c hc => hct c (by simpa [chainsEE] using hc))
         (fun c hc => hsn c (by simpa [sumChainsEE] using hc)) hda
       refine ⟨s1, by simpa [compEE] using h1, h2, by simp [compEE, evalE, h3, hden], ?_, by simpa [compEE] using h5⟩
@@ -593,7 +650,7 @@ theorem compEE_correct (C : Ctx D) (QC : QCtx D) (hN : QC.N = C.N) (hev : QC.ev 
       rcases hasTy_num h4 hwt.2 with ⟨k, rfl, ht⟩ | ⟨y, rfl, ht⟩
       · simp [unop] at hden; subst hden; simp [ht, HasTy]
       · simp [unop] at hden; subst hden; rcases ht with h | h <;> simp [h, HasTy]
-  | .not a, n, s, v, hdone, hwt, hct, hsn, hden => by
+  | .not a, n, s, v, htk, hdone, hwt, hct, hsn, hden => by
     simp only [wtEE, Bool.and_eq_true, beq_iff_eq] at hwt
     simp only [eeQ, denote] at hden
     cases hda : denote QC [("e", evtVal)] (eeQ "e" a) with
@@ -601,7 +658,7 @@ theorem compEE_correct (C : Ctx D) (QC : QCtx D) (hN : QC.N = C.N) (hev : QC.ev 
     | ok va =>
       rw [hda, hN] at hden
       simp only [] at hden
-      obtain ⟨s1, h1, h2, h3, h4, h5⟩ := compEE_correct C QC hN hev B hB nm hinj hres hcollT a n s va
+      obtain ⟨s1, h1, h2, h3, h4, h5⟩ := compEE_correct_tok C QC hN hev B hB nm hinj hres hcollT a n s va htk
         (by simpa [compEE] using hdone) hwt.1 (fun c hc => hct c (by simpa [chainsEE] using hc))
         (fun c hc => hsn c (by simpa [sumChainsEE] using hc)) hda
       refine ⟨s1, by simpa [compEE] using h1, h2, by simp [compEE, evalE, h3, hden], ?_, by simpa [compEE] using h5⟩
@@ -609,5 +666,19 @@ theorem compEE_correct (C : Ctx D) (QC : QCtx D) (hN : QC.N = C.N) (hev : QC.ev 
       rw [hwt.2] at h4 ⊢
       obtain ⟨b, rfl⟩ := hasTy_bool h4
       simp [unop, asBool] at hden; subst hden; simp [HasTy]
+
+/-- **event-level scalar expressions** (retrieval by bank name) -/
+theorem compEE_correct (C : Ctx D) (QC : QCtx D) (hN : QC.N = C.N) (hev : QC.ev = C.ev)
+    (B : Backend) (hB : BackendOK B) (nm : Nat → String)
+    (hinj : ∀ i j, nm i = nm j → i = j) (hres : ∀ j, nm j ≠ "result")
+    (hcollT : ∀ name, B.collType name = QC.collType name)
+    (e : EE) (n : Nat) (s : St D) (v : Val D)
+    (hdone : DeclsDone C.N (compEE B nm e n).decls s.env)
+    (hwt : wtEE e = true) (hct : ∀ c ∈ chainsEE e, ChainTyped QC c) (hsn : ∀ c ∈ sumChainsEE e, SumNonEmpty QC c)
+    (hden : denote QC [("e", evtVal)] (eeQ "e" e) = .ok v) :
+    ∃ s', execs C (compEE B nm e n).stmts s = .ok s' ∧ s'.rows = s.rows ∧
+      evalE C.N s'.env (compEE B nm e n).val = .ok v ∧ HasTy v (tyEE e) ∧
+      (∀ y, ¬ Touch nm n (compEE B nm e n).next y → s'.env y = s.env y) :=
+  compEE_correct_tok C QC hN hev B hB.base nm hinj hres hcollT e n s v (tokEE_of_notToken hB.notToken nm C e n) hdone hwt hct hsn hden
 
 end FaxVerif.Gen
